@@ -80,6 +80,61 @@ let () =
         String.concat " || " (go k (bytes_of_hex h) [])
     | _ -> failwith "TR")
 
+
+(* ---- disassembly lines (structured payloads printed in the harness' token syntax) ---- *)
+let is_nan32 (b : z) : bool =
+  let i = int_of_z b in (i land 0x7f800000) = 0x7f800000 && (i land 0x7fffff) <> 0
+let numtok f = if is_nan32 f then "nan" else f32s f
+
+let rec color_str (c : color) : string =
+  match c with
+  | CRGBA d ->
+      if valid_premul d then "#" ^ hex_of_rgba d
+      else if valid_gradient d then
+        let i x = int_of_z x in
+        Printf.sprintf "grad:%d:%d:%d:%d:%d" (i d.cr land 0x3f) (i d.cg land 0x3f) (i d.cb land 0x3f)
+          ((i d.cb lsr 6) land 1) (i d.cg lsr 6)
+      else "nonsense"
+  | CPal i -> "p" ^ dec_of_z i
+  | CCReg i -> "c" ^ dec_of_z i
+  | CBlend (t, c0, c1) ->
+      Printf.sprintf "b:%d:%d:%s:%s" (255 - int_of_z t) (int_of_z t)
+        (color_str (decode_color1 c0)) (color_str (decode_color1 c1))
+
+let payload_str (p : payload) : string =
+  let ch op = String.make 1 (Char.chr (int_of_z op)) in
+  let b01 b = if b then "1" else "0" in
+  match p with
+  | PMagic -> "magic"
+  | PNChunks n -> "nchunks=" ^ dec_of_z n
+  | PChunkLen n -> "chunklen=" ^ dec_of_z n
+  | PMid m -> "mid=" ^ dec_of_z m
+  | PPalHdr (c, b) -> "palhdr=" ^ dec_of_z c ^ "," ^ dec_of_z b
+  | PPalColor c -> "color=#" ^ hex_of_rgba c
+  | PNum f -> "num=" ^ numtok f
+  | PSetCSel v -> "csel=" ^ dec_of_z v
+  | PSetNSel v -> "nsel=" ^ dec_of_z v
+  | PSetCReg (adj, incr, form) -> "setcreg=" ^ dec_of_z adj ^ "," ^ b01 incr ^ "," ^ dec_of_z form
+  | PColor c -> "color=" ^ color_str c
+  | PSetNReg (adj, incr, typ) -> "setnreg=" ^ dec_of_z adj ^ "," ^ b01 incr ^ "," ^ dec_of_z (if int_of_z typ > 2 then z_of_int 2 else typ)
+  | PNRegNum f -> "num=" ^ numtok f
+  | PStartPath adj -> "startpath=" ^ dec_of_z adj
+  | PSetLOD -> "setlod"
+  | PDrawOp (op, n) -> "op=" ^ ch op ^ "," ^ dec_of_z n
+  | PImplicit op -> "implicit=" ^ ch op
+  | PAngle f -> "angle=" ^ numtok f
+  | PFlags x -> Printf.sprintf "flags=%s,%d,%d" (dec_of_z x) (int_of_z (Z.modulo x (z_of_int 2))) (int_of_z (Z.modulo (Z.div x (z_of_int 2)) (z_of_int 2)))
+  | PSimple op -> "simple=" ^ ch op
+
+let () =
+  let dis a =
+    match disassemble (bytes_of_hex (List.nth a 0)) with
+    | (Some lines, _) ->
+        "OK " ^ String.concat " " (List.map (fun (b, p) -> hex_of_bytes b ^ "|" ^ payload_str p) lines)
+    | (None, o) -> str_of_outcome o in
+  reg "DIS" dis;
+  reg "DD" (fun a -> dec_str [] (bytes_of_hex (List.nth a 0)) ^ " || " ^ dis a)
+
 let () =
   let out = Buffer.create (1 lsl 16) in
   (try
